@@ -220,7 +220,7 @@ pub fn run(cfg: &Cfg, rep: &mut Rep) {
     }
     let mut r = Rng::new(cfg.seed, 0x1200 + sh as u64);
     let lats: Vec<Vec<i128>> = SCALES.iter().map(|s| gen::reading_lattice(*s, &w.leap)).collect();
-    let nrand = cfg.budget(1_600_000);
+    let nrand = cfg.budget(6_000_000);
     for k in 0..nrand {
         let (ia, ib) = (r.below(9) as usize, r.below(9) as usize);
         let (sa, sb) = (SCALES[ia], SCALES[ib]);
